@@ -361,3 +361,118 @@ def gd_raises(ctx, st, exc):
 
 UNITS.append(Unit("C04", "jsonargparse._core:ArgumentParser.get_defaults", gd_setup, gd_post, gd_raises, max_paths=20000, expect_cover=("return", "raise:ArgumentError"),
                   trusted=["merge_config(a, b) == ov(b, a) (its own unit)", "_parse_common completes a configuration (its own units)", "recreate_branches copies (C08 unit)", "_get_default_config_files lists the files in application order (its own unit)"]))
+
+
+# ------------------------------------------------------------------------------------------------ _ActionConfigLoad: the whole-group option (--g <config>)
+# argv is applied left to right: a whole-group value overrides the members given before it, and only those it names (merge, not replace);
+# the text / file is loaded relative to its own directory and its members meet their own actions below the group key;
+# whatever goes wrong while loading is a TypeError naming the key (which the parse methods turn into ArgumentError).
+def acl_setup(ctx):
+    from pyvc.engine import Fn
+    mode = ["argv-call", "factory-call"][ctx.choose(2, "use")]
+    existing_kind = ["absent", "namespace", "scalar"][ctx.choose(3, "value-already-in-the-namespace")] if mode == "argv-call" else "absent"
+    ctx.classes.add("Namespace", ["object"])
+    loaded = Rec("Namespace", attrs={"expr": "LOADED"})
+    existing = {"absent": None, "namespace": Rec("Namespace", attrs={"expr": "EXISTING"}), "scalar": z3.Int("existing")}[existing_kind]
+    store = {"g": existing} if existing is not None else {}
+    namespace = Rec("Namespace", methods={"get": lambda c, s_, a, k: store.get(a[0]), "__getitem__": lambda c, s_, a, k: store[a[0]], "__setitem__": lambda c, s_, a, k: store.__setitem__(a[0], a[1])})
+    value = z3.String("value")
+
+    def merge(c, s_, a, k):
+        c.event("merge", a[0], a[1])
+        return Rec("Namespace", attrs={"expr": ("wrapped", ov(a[1].attrs["expr"], a[0].attrs["expr"]))}, methods={"__getitem__": lambda c2, s2, a2, k2: Rec("Namespace", attrs={"expr": ("item", a2[0], s2.attrs["expr"])})})
+
+    parser = Rec("ArgumentParser", methods={"merge_config": merge})
+    self = Rec("_ActionConfigLoad", attrs={"dest": "g", "_basetype": Rec("basetype")}, methods={"_load_config": lambda c, s_, a, k: (c.event("load", a[0], a[1]), loaded)[1]})
+
+    def new_ns(c, a, k):
+        d = a[0]
+        (key, v), = d.items()
+        return Rec("Namespace", attrs={"expr": ("wrap", key, v.attrs["expr"] if isinstance(v, Rec) else v)})
+
+    made = []
+    calls = {"Namespace": new_ns, "_ActionConfigLoad": lambda c, a, k: (made.append(dict(k)), Rec("new _ActionConfigLoad"))[1]}
+    args = (parser, namespace, value, "--g") if mode == "argv-call" else ()
+    kwargs = {} if mode == "argv-call" else {"option_strings": ["--g"], "dest": "g"}
+    return Setup(env={"self": self, "args": args, "kwargs": kwargs}, calls=calls, consts={"Namespace": ClassRef("Namespace")},
+                 data=dict(mode=mode, existing_kind=existing_kind, store=store, loaded=loaded, value=value, parser=parser, made=made, self_=self))
+
+
+def acl_post(ctx, st, result):
+    d = st.data
+    tag = f"[{d['mode']},{d['existing_kind']}]"
+    if d["mode"] == "factory-call":
+        ctx.oblige("post", "called-by-argparse-to-create-the-action:a-new-loader-with-the-same-base-type-and-the-given-keywords" + tag,
+                   len(d["made"]) == 1 and d["made"][0] == {"option_strings": ["--g"], "dest": "g", "_basetype": d["self_"].attrs["_basetype"]} and isinstance(result, Rec) and result.cls == "new _ActionConfigLoad")
+        return
+    loads = [e for e in ctx.events if e[0] == "load"]
+    ctx.oblige("post", "the-value-is-loaded-once-with-this-parser" + tag, len(loads) == 1 and loads[0][1] is d["value"] and loads[0][2] is d["parser"])
+    got = d["store"].get("g")
+    if d["existing_kind"] == "namespace":
+        want = ("item", "g", ("wrapped", ov(("wrap", "g", "EXISTING"), ("wrap", "g", "LOADED"))))
+        ctx.oblige("post", "members-given-before-are-kept-unless-the-loaded-group-names-them(the loaded value overrides, key by key)" + tag, isinstance(got, Rec) and got.attrs.get("expr") == want, note=str(getattr(got, "attrs", None)))
+    else:
+        ctx.oblige("post", "without-an-earlier-group-value-the-loaded-group-is-stored-as-it-is" + tag, got is d["loaded"])
+    ctx.oblige("post", "returns-nothing(the namespace is the result)" + tag, result is None)
+
+
+def acl_raises(ctx, st, exc):
+    ctx.oblige("raises", f"no-own-exception(got {exc.cls}@{exc.origin})", False)
+
+
+def lc_setup(ctx):
+    from pyvc.engine import ExcVal, PyRaise
+    outcome = ["mapping", "scalar", "loader-error", "apply-TypeError", "apply-KeyError"][ctx.choose(5, "what-the-value-is")]
+    ctx.classes.add("YAMLError", ["Exception"])
+    value = z3.String("value")
+    loaded_dict = {"x": 1}
+    cfg_path = Rec("Path of the config file")
+    applied = Rec("Namespace", attrs={"expr": "APPLIED"})
+    open_cms = []
+
+    def parse_value_or_config(c, a, k):
+        c.event("parse_value_or_config", a[0], dict(k))
+        if outcome == "loader-error":
+            raise PyRaise(ExcVal("YAMLError", args=("bad yaml",), origin="loader"))
+        return (loaded_dict if outcome != "scalar" else 5, cfg_path)
+
+    def apply_actions(c, s_, a, k):
+        c.event("apply", a[0], k.get("parent_key"), list(open_cms))
+        if outcome.startswith("apply-"):
+            raise PyRaise(ExcVal(outcome.split("-")[1], args=("inner problem",), origin="_apply_actions"))
+        return applied
+
+    parser = Rec("ArgumentParser", methods={"_apply_actions": apply_actions})
+    self = Rec("_ActionConfigLoad", attrs={"dest": "g"})
+    calls = {"parse_value_or_config": parse_value_or_config, "get_loader_exceptions": lambda c, a, k: (ClassRef("YAMLError"),), "indent_text": lambda c, a, k: a[0]}
+    cms = {"change_to_path_dir": (lambda c, a, k: open_cms.append(("cwd", a[0])), lambda c, t, e: (open_cms.pop(), False)[1])}
+    return Setup(env={"self": self, "value": value, "parser": parser}, calls=calls, cms=cms, data=dict(outcome=outcome, value=value, loaded_dict=loaded_dict, cfg_path=cfg_path, applied=applied, open_cms=open_cms))
+
+
+def lc_post(ctx, st, result):
+    d = st.data
+    tag = f"[{d['outcome']}]"
+    ctx.oblige("post", "accepted=>the-value-loaded-to-a-mapping-and-nothing-failed" + tag, d["outcome"] == "mapping")
+    ap = [e for e in ctx.events if e[0] == "apply"]
+    ctx.oblige("post", "the-members-meet-their-own-actions-below-the-group-key,inside-the-directory-of-the-file-the-text-came-from" + tag,
+               len(ap) == 1 and ap[0][1] is d["loaded_dict"] and ap[0][2] == "g" and ap[0][3] == [("cwd", d["cfg_path"])] and result is d["applied"] and not d["open_cms"])
+    pv = [e for e in ctx.events if e[0] == "parse_value_or_config"]
+    ctx.oblige("post", "the-value-is-read-once,as-text-or-as-a-path" + tag, len(pv) == 1 and pv[0][1] is d["value"])
+
+
+def lc_raises(ctx, st, exc):
+    d = st.data
+    tag = f"[{d['outcome']}]"
+    if d["outcome"] == "apply-KeyError":
+        # a KeyError from the members' actions is not re-labelled here; the parse methods catch KeyError as well (C03 units)
+        ctx.oblige("raises", f"a-member's-KeyError-propagates(got {exc.cls})" + tag, exc.cls in ("KeyError", "TypeError") and not d["open_cms"])
+    else:
+        ctx.oblige("raises", f"whatever-goes-wrong-while-loading-is-a-TypeError-naming-the-key(got {exc.cls}@{exc.origin})" + tag,
+                   exc.cls == "TypeError" and d["outcome"] in ("scalar", "loader-error", "apply-TypeError") and exc.origin != "_apply_actions" and not d["open_cms"])
+
+
+UNITS += [
+    Unit("C04", "jsonargparse._actions:_ActionConfigLoad.__call__", acl_setup, acl_post, acl_raises, trusted=["merge_config(a, b) == ov(b, a) (its own unit)", "Namespace({k: v}) wraps v under k"]),
+    Unit("C04", "jsonargparse._actions:_ActionConfigLoad._load_config", lc_setup, lc_post, lc_raises, expect_cover=("return", "raise:TypeError"),
+         trusted=["parse_value_or_config reads text or a path and reports the path", "_apply_actions by contract (its own unit)"]),
+]
